@@ -2,7 +2,7 @@
     [vm_compute] on a witness for the refutations/examples) and followed by [Print Assumptions].
     All are parametric in the two oracles (what the real parser / printer return). *)
 From V Require Import Base.Util C20.Model C19.Model C19.Spec C19.Proofs C19.Proofs2 C19.Proofs3
-  C19.Proofs4 C19.Proofs5 C19.Ghost C19.GhostProofs C19.Corr.
+  C19.Proofs4 C19.Proofs5 C19.Proofs6 C19.Ghost C19.GhostProofs C19.Corr.
 From Coq Require Import Sorted.
 
 (** 1. task ids: strictly increasing over any history, never 0 — hence never reused *)
@@ -115,33 +115,84 @@ Theorem C19_ghost_needs_exact_capacity :
 Proof. exact ghost_unsafe_with_slack. Qed.
 Print Assumptions C19_ghost_needs_exact_capacity.
 
-(** * Refutations: behaviour of the current code that violates the property.  The witnesses are
-      cases exactly as the correspondence run records them on the real loader (oracle values
-      included); the model agrees with the implementation on them and the property fails. *)
+(** 8. the emit step as the code has it now ([Model.staged_emit]: resolve imports, look for an
+       undefined spread, print) never traps, and on a live task answers [false] exactly when import
+       resolution erred or the resolved document spreads a fragment it does not define *)
+Theorem C19_emit_never_traps_errs_iff : forall parse_o resolve_o st t x,
+  find_task t (tasks st) = Some x ->
+  snd (step parse_o (staged_emit resolve_o) st (Emit t)) <> Trap
+  /\ (snd (step parse_o (staged_emit resolve_o) st (Emit t)) = RBool false <->
+      (exists m, resolve_o (t_root x) (t_files x) = RErr m)
+      \/ (exists defs spreads js n, resolve_o (t_root x) (t_files x) = ROk defs spreads js
+                                    /\ In n spreads /\ ~ In n defs))
+  /\ (snd (step parse_o (staged_emit resolve_o) st (Emit t)) = RBool false
+      \/ snd (step parse_o (staged_emit resolve_o) st (Emit t)) = RBool true).
+Proof. exact emit_live. Qed.
+Print Assumptions C19_emit_never_traps_errs_iff.
+
+(** ... so with it theorem 4's guard is a statement about the parser alone *)
+Theorem C19_model_meets_spec_staged : forall parse_o resolve_o h,
+  (forall src, parse_o src <> PTrap) ->
+  spec_check parse_o (staged_emit resolve_o) false s_init h
+             (run parse_o (staged_emit resolve_o) init_state h) = true.
+Proof.
+  intros parse_o resolve_o h Hp. apply model_meets_spec. now apply total_staged.
+Qed.
+Print Assumptions C19_model_meets_spec_staged.
+
+(** 9. a call that reports failure — initiate_task returning 0 (source does not parse),
+       load_file / emit_js / get_required_files returning false — allocates no id and leaves every
+       task exactly as it was, in any reachable state: only RESULT changes *)
+Theorem C19_failure_changes_only_result : forall parse_o emit_o h st c st' x,
+  exec parse_o emit_o init_state h = Some st ->
+  step parse_o emit_o st c = (Some st', x) -> x = RId 0 \/ x = RBool false ->
+  next_id st' = next_id st /\ tasks st' = tasks st.
+Proof.
+  intros parse_o emit_o h st c st' x He Hs Hx.
+  destruct (wf_exec parse_o emit_o h _ _ wf_init He) as [Hwf _].
+  exact (failure_changes_only_result parse_o emit_o st c st' x Hs Hx Hwf).
+Qed.
+Print Assumptions C19_failure_changes_only_result.
+
+(** * Former findings, now regression witnesses.  Until /repo commits a4a3647 and 539df4b these
+      histories aborted the process (panic inside extern "C"); the cases below are as the
+      correspondence run records them now: error results, model = implementation, property holds,
+      and the task is still usable afterwards. *)
 
 Definition w_file : str := s "/p/a.graphql".
 Definition w_missing : str := s "query A { a ...Missing }".
-Definition w_emit_trap : case :=
-  mkCase [(w_missing, POk [])] [(w_file, [(w_file, w_missing)], ETrap)]
-         [Initiate w_file w_missing; Emit 1] [RId 1; Trap].
+Definition w_undefined_msg : str := s "Fragment 'Missing' is not defined".
+Definition w_emit_undefined : case :=
+  mkCase [(w_missing, POk [])]
+         [(w_file, [(w_file, w_missing)], ROk [] [s "Missing"] (s ""), EErr w_undefined_msg)]
+         [Initiate w_file w_missing; Emit 1; ReadResult; Required 1; ReadResult; Free 1; Emit 1; ReadResult]
+         [RId 1; RBool false; RStr w_undefined_msg; RBool true; RStr []; RUnit; RBool false; RStr TASK_NOT_FOUND].
 
-Theorem C19_emit_trap_refuted : agree w_emit_trap = true /\ holds w_emit_trap = false.
+Example C19_emit_undefined_is_error : agree w_emit_undefined = true /\ holds w_emit_undefined = true.
 Proof. vm_compute. split; reflexivity. Qed.
-Print Assumptions C19_emit_trap_refuted.
 
 Definition w_surrogate : str := s "query A { a(s: ""\uD800"") }".
 Definition w_plain : str := s "query A { a }".
-Definition w_parse_trap : case :=
-  mkCase [(w_plain, POk []); (w_surrogate, PTrap)] []
-         [Initiate w_file w_plain; Load 1 (s "/p/b.graphql") w_surrogate] [RId 1; Trap].
-Definition w_parse_trap0 : case :=
-  mkCase [(w_surrogate, PTrap)] [] [Initiate w_file w_surrogate] [Trap].
+Definition w_surrogate_msg : str := s "Parse error: Invalid unicode escape sequence '\uD800'".
+Definition w_js : str := s "const AQuery = ...".
+Definition w_parse_error : case :=
+  mkCase [(w_plain, POk []); (w_surrogate, PErr w_surrogate_msg)]
+         [(w_file, [(w_file, w_plain)], ROk [] [] w_js, EOk w_js)]
+         [Initiate w_file w_surrogate; ReadResult; Initiate w_file w_plain;
+          Load 1 (s "/p/b.graphql") w_surrogate; ReadResult; Load 1 w_file w_surrogate; ReadResult;
+          Required 1; ReadResult; Emit 1; ReadResult; Required 2]
+         [RId 0; RStr w_surrogate_msg; RId 1; RBool false; RStr w_surrogate_msg; RBool false; RStr w_surrogate_msg;
+          RBool true; RStr []; RBool true; RStr w_js; RBool false].
 
-Theorem C19_parse_trap_refuted :
-  (agree w_parse_trap = true /\ holds w_parse_trap = false)
-  /\ (agree w_parse_trap0 = true /\ holds w_parse_trap0 = false).
-Proof. vm_compute. repeat split; reflexivity. Qed.
-Print Assumptions C19_parse_trap_refuted.
+(** the failed initiate took no id (the next one is 1), the failed loads left task 1 as it was *)
+Example C19_parse_error_is_error : agree w_parse_error = true /\ holds w_parse_error = true.
+Proof. vm_compute. split; reflexivity. Qed.
+
+(** the check still has teeth: had the implementation aborted there, [holds] would be false *)
+Example C19_abort_would_fail :
+  holds (mkCase [(w_missing, POk [])] [(w_file, [(w_file, w_missing)], ROk [] [s "Missing"] (s ""), ETrap)]
+                [Initiate w_file w_missing; Emit 1] [RId 1; Trap]) = false.
+Proof. vm_compute. reflexivity. Qed.
 
 (** * Non-vacuity *)
 
